@@ -400,7 +400,7 @@ func genKw(t *rapid.T) KwDesc {
 	case 2:
 		return KwDesc{K: rapid.SampledFrom([]string{"zerostringer", "nil", "int"}).Draw(t, "kwbad")}
 	}
-	return KwDesc{K: "str", S: rapid.SampledFrom([]string{"cn", "person", "k", "two words", "é"}).Draw(t, "kw")}
+	return KwDesc{K: "str", S: rapid.SampledFrom([]string{"cn", "person", "k", "two words", "é", " ", "\t", "\u00a0", " k ", "K"}).Draw(t, "kw")}
 }
 
 func genOper(t *rapid.T) OpDesc {
